@@ -190,12 +190,13 @@ type actor struct {
 }
 
 type world struct {
-	e       *env
-	tag     string
-	g, h    string
-	variant string // "", locked, full, not-open, expired, no-operator
-	users   map[string]any
-	unrestr bool
+	e         *env
+	tag       string
+	g, h      string
+	variant   string // "", locked, full, not-open, expired, no-operator
+	users     map[string]any
+	unrestr   bool
+	extraDesc map[string]any
 
 	hlp, obs, tgt *vclient.Client
 	extra         []*vclient.Client // other connected clients (the actors)
@@ -206,6 +207,10 @@ type world struct {
 	recID     string
 	tok       string // a token of this group, created in-process
 	tokExp    time.Time
+	// ids of streams whose offer was performed: the server announces a stream to the
+	// other members 200 ms (of real time) after the offer, so events about these ids may
+	// arrive during any later step and are not effects of that step
+	published map[string]bool
 
 	mu   sync.Mutex
 	log  []string
@@ -266,6 +271,9 @@ func (w *world) groupDesc() map[string]any {
 	d := map[string]any{"allow-recording": true, "users": us}
 	if w.unrestr {
 		d["unrestricted-tokens"] = true
+	}
+	for k, v := range w.extraDesc {
+		d[k] = v
 	}
 	switch w.variant {
 	case "full":
@@ -759,7 +767,8 @@ func (w *world) perform(a *actor, ks kindSpec, tgt *vclient.Client, j job, expec
 	src := a.c.ID
 	var m vclient.Msg
 	var delegated []string
-	newExp := time.Now().Add(3 * time.Hour).UTC().Truncate(time.Second)
+	// a different instant each time, so that a second edit is visible too
+	newExp := time.Now().Add(3*time.Hour + time.Duration(nonceCtr.Add(1)%50000)*time.Second).UTC().Truncate(time.Second)
 	streamID := "st-" + nonce
 	switch ks.name {
 	case "chat":
@@ -831,7 +840,12 @@ func (w *world) perform(a *actor, ks kindSpec, tgt *vclient.Client, j job, expec
 	seen := map[*vclient.Client][]vclient.Msg{}
 	otherNews := 0
 	for _, c := range w.clients() {
-		seen[c] = news(c, mark[c])
+		for _, e := range news(c, mark[c]) {
+			if c != a.c && e.Str("type") == "close" && w.published[e.Str("id")] {
+				continue // late announcement of an earlier, legitimately published stream
+			}
+			seen[c] = append(seen[c], e)
+		}
 		if c != a.c {
 			otherNews += len(seen[c])
 		}
@@ -1080,6 +1094,10 @@ func (w *world) perform(a *actor, ks kindSpec, tgt *vclient.Client, j job, expec
 		out.detail = fmt.Sprintf("actor got an answer: %v, an abort: %v", answered, aborted)
 		if answered {
 			a.streams = append(a.streams, streamID)
+			if w.published == nil {
+				w.published = map[string]bool{}
+			}
+			w.published[streamID] = true
 		}
 	}
 	if !out.performed && otherNews > 0 {
